@@ -114,7 +114,10 @@ impl SigV4AuthenticatorBuilder {
     #[verifier::external_body]
     pub fn build(&self) -> (r: Result<SigV4Authenticator, UninitializedFieldError>)
         ensures
-            self.complete() ==> r is Ok && r->Ok_0.built_from(*self),
+            self.complete() ==> r is Ok && r->Ok_0.built_from(*self)
+                && r->Ok_0.cred() == str_bytes(self.credential->Some_0@) && r->Ok_0.sig() == str_bytes(self.signature->Some_0@)
+                && r->Ok_0.ts() == self.request_timestamp->Some_0.ns && r->Ok_0.creq_hash() == self.canonical_request_sha256->Some_0@
+                && r->Ok_0.token() == (if self.session_token is Some { self.session_token->Some_0 } else { None::<String> }),
             !self.complete() ==> r is Err,
     { unimplemented!() }
 }
